@@ -182,9 +182,9 @@ Pass1(desc, C, ops, live, F) ==      \* C = [has, data, seek, canon, out, tail]
                \/ (e.o \notin live /\ "write-dead" \notin F)
       base  == IF e.o \in C.has \/ "stale-merge" \in F THEN C.data[e.o] ELSE Zero(desc)
       nv    == IF e.k = "mrg" THEN MergeFn(desc.m, base, e.v) ELSE e.v
-      later == \E j \in 2..Len(ops) : ops[j].o = e.o /\ ops[j].k # "skip"
-      moved == /\ "swap-append" \in F /\ e.k = "mrg" /\ desc.k = "str"
-               /\ Len(nv) # Len(e.v) /\ later
+      \* as built every length-changing merge is re-issued at the end of the buffer (in order); whether that is
+      \* observable (a later write to the same row that is NOT re-issued) is decided by comparing outcomes per row
+      moved == "swap-append" \in F /\ e.k = "mrg" /\ desc.k = "str" /\ Len(nv) # Len(e.v)
       putop == [k |-> "put", o |-> e.o, v |-> nv, x |-> e.x]
       clash == desc.k = "enum" /\ nv \in Collide
       stored == IF clash /\ "enum-collide" \in F /\ C.canon # <<>> THEN C.canon[1] ELSE nv
@@ -586,7 +586,8 @@ Project(S) ==
 
 \* C01: every live row reads back, in every column, what the committed history says it holds
 ReadBack ==
-  Excused({"D-write-dead-row", "D-swap-append", "D-failed-insert-applied", "D-enum-collision", "D-dead-delete", "D-merge-reads-stale"}) \/
+  Excused({"D-write-dead-row", "D-swap-append", "D-failed-insert-applied", "D-enum-collision", "D-dead-delete", "D-merge-reads-stale",
+           "D-replay-all-blocks"}) \/
   \A c \in Colls : NoLatch(c) =>
     \A n \in DOMAIN st[c].reg : \A o \in st[c].live :
        LET g == st[c].gt[n][o]  v == ValueAt(st[c], n, o) IN
